@@ -65,12 +65,12 @@ def writer_tables(facts):
         brk = set()
         for v in range(256):
             a, br = it.effects(m, {bvar: v, is_ml: ml})
-            if 'escaped' in a:
-                val = a['escaped']
-                if isinstance(val, tuple) and val[:2] == ('ctor', SOME):
-                    esc[v] = val[2][0]
-                else:
-                    raise Unanalysable(f'escaped assigned a non-Some value for byte {v}')
+            # the pending escape sequence: whichever local the arm assigns `Some("<text>")` to (its name is not relied upon)
+            hits = [val for val in a.values() if isinstance(val, tuple) and val[:2] == ('ctor', SOME) and len(val) == 3 and val[2] and isinstance(val[2][0], str)]
+            if len(hits) > 1:
+                raise Unanalysable(f'several escape texts assigned for byte {v}')
+            if hits:
+                esc[v] = hits[0][2][0]
             if br:
                 brk.add(v)
         out[ml] = (esc, frozenset(brk))
@@ -225,25 +225,44 @@ def subst_metrics(e):
     return e
 
 
+METRIC_FLAGS = ('escape_codes', 'escape', 'newline')
+
+
 def refuse_table(facts, d, run_field):
-    """run lengths 0..4 for which a builder refuses, all boolean metrics false"""
+    """Evaluates the whole builder method (whatever its syntactic form: if / bool::then / named locals / helper calls) for every combination of
+    one run length 0..4 and the boolean metrics; returns (body, run lengths refused with all flags clear, flags that make it refuse at run 0,
+    whether `offered == (run not refused) and no refusing flag set` holds for every combination)."""
+    import itertools
     b = facts.body(d)
-    ifs = [n for n in walk(b['body']) if n.get('k') == 'if']
-    if len(ifs) != 1:
-        raise AnalysisIncomplete(f'{d}: expected one `if`')
-    cond = subst_metrics(ifs[0]['cond'])
-    then_none = any(x.get('k') == 'path' and (x.get('path') or '').endswith('Option::None') for x in walk(ifs[0]['then']))
-    names = sorted({x['path'] for x in walk(cond) if x.get('k') == 'path' and x.get('res') == 'Local'})
     it = Interp(Evaluator(facts))
-    refused = set()
-    for r in range(0, 5):
-        env = {n: False for n in names}
-        env[run_field] = r
-        v = bool(it.run(cond, env))
-        if v == then_none:
-            refused.add(r)
-    flags = set(names) - {run_field}
-    return b, refused, flags
+    params = [p for p in b.get('params', []) if p.get('k') == 'p_bind']
+    if not params:
+        raise AnalysisIncomplete(f'{d}: no self parameter')
+    me = params[0]['name']
+
+    def offered(run, flags):
+        metrics = {'max_seq_single_quotes': 0, 'max_seq_double_quotes': 0, 'unquoted': False, 'single_quotes': False, 'double_quotes': False}
+        metrics.update({f: False for f in METRIC_FLAGS})
+        metrics[run_field] = run
+        metrics.update(flags)
+        selfv = ('struct', 'Builder', {'decoded': 'text', 'metrics': ('struct', 'Metrics', metrics)})
+        r = it.run(b['body'], {me: selfv})
+        if isinstance(r, tuple) and r and r[0] == 'ctor' and r[1].endswith('Option::Some'):
+            return True
+        if isinstance(r, tuple) and r and r[0] == 'ctor' and r[1].endswith('Option::None'):
+            return False
+        raise Unanalysable(f'{last_seg(d)} evaluates to {r!r}')
+    none = {f: False for f in METRIC_FLAGS}
+    refused = {r for r in range(5) if not offered(r, none)}
+    flags = {f for f in METRIC_FLAGS if not offered(0, dict(none, **{f: True}))}
+    consistent = True
+    for r in range(5):
+        for combo in itertools.product((False, True), repeat=len(METRIC_FLAGS)):
+            fl = dict(zip(METRIC_FLAGS, combo))
+            want = (r not in refused) and not any(fl[f] for f in flags)
+            if offered(r, fl) != want:
+                consistent = False
+    return b, refused, flags, consistent
 
 
 def r3_thresholds(rep, facts, a):
@@ -256,14 +275,15 @@ def r3_thresholds(rep, facts, a):
                                     (W + "TomlStringBuilder::<'s>::as_basic_pretty", 'max_seq_double_quotes', 0, {'escape_codes', 'escape', 'newline'}),
                                     (W + "TomlStringBuilder::<'s>::as_ml_basic_pretty", 'max_seq_double_quotes', hi_b, {'escape_codes', 'escape'})):
         try:
-            b, refused, fl = refuse_table(facts, d, field)
-        except (Unanalysable, KeyError) as e:
+            b, refused, fl, consistent = refuse_table(facts, d, field)
+        except (Unanalysable, KeyError, AnalysisIncomplete) as e:
             rep.incomplete(R, d, f'cannot tabulate: {e}')
             continue
         exp = {r for r in range(5) if r > maxrun}
         rep.check(R, last_seg(d) + '|run-threshold', refused == exp, f'refuses runs of {sorted(exp)}', f'`{last_seg(d)}` refuses quote runs of length {sorted(refused)}, '
                   f'expected {sorted(exp)} (a run of {maxrun + 1} would end the string early)', facts.loc(b))
-        rep.check(R, last_seg(d) + '|flags', fl == flags, f'also refuses on {sorted(fl)}', f'`{last_seg(d)}` looks at metrics {sorted(fl)}, expected {sorted(flags)}', facts.loc(b))
+        rep.check(R, last_seg(d) + '|flags', fl == flags and consistent, f'also refuses on {sorted(fl)}',
+                  f'`{last_seg(d)}` refuses on metrics {sorted(fl)}, expected {sorted(flags)}' + ('' if consistent else ' (and the run length and the flags are not combined as a plain disjunction)'), facts.loc(b))
     # the escaping loop: max_seq_double_quotes = if is_ml {2} else {0}; escape when max < seq
     b = facts.body(W + 'write_toml_value')
     it = Interp(Evaluator(facts))
@@ -304,25 +324,42 @@ def r4_delimiters(rep, facts, a):
         'escaped': {'LiteralString': False, 'BasicString': True, 'MlLiteralString': False, 'MlBasicString': True, 'None': False},
         'is_ml': {'LiteralString': False, 'BasicString': False, 'MlLiteralString': True, 'MlBasicString': True, 'None': False},
     }
+    def prefix_env(env0):
+        """evaluate the statements of write_toml_value in order until the first one the evaluator cannot follow (the writing loop);
+        returns {local base name: value}"""
+        fx = FxInterp(Evaluator(facts))
+        env = dict(env0)
+        env['@assign'] = {}
+        env['@break'] = False
+        for st in b['body'].get('stmts', []):
+            try:
+                fx.val(st, env)
+            except Exception:
+                break
+        return {k.split('#')[0].split('~')[0]: v for k, v in env.items() if isinstance(k, str) and not k.startswith('@')}
+    tables = {}
+    try:
+        for k, v in vals.items():
+            tables[k] = prefix_env({enc: v})
+    except Unanalysable as e:
+        tables = None
     for name, exp in want.items():
-        let = [n for n in b['body'].get('stmts', []) if n.get('k') == 'let' and n['pat'].get('k') == 'p_bind' and n['pat']['name'].split('#')[0] == name]
-        got = {}
-        try:
-            for k, v in vals.items():
-                got[k] = it.run(let[0]['init'], {enc: v})
-        except (Unanalysable, IndexError) as e:
-            rep.incomplete(R, f'write_toml_value|{name}', f'cannot tabulate: {e}', facts.loc(b))
+        if tables is None or any(name not in tables[k] for k in vals):
+            rep.incomplete(R, f'write_toml_value|{name}', f'cannot tabulate `{name}` (no local of that name is computed before the writing loop)', facts.loc(b))
             continue
+        got = {k: tables[k][name] for k in vals}
         rep.check(R, f'write_toml_value|{name}', got == exp, str(got), f'`{name}` table is {got}, expected {exp}', facts.loc(b))
-    let = [n for n in b['body'].get('stmts', []) if n.get('k') == 'let' and n['pat'].get('k') == 'p_bind' and n['pat']['name'].split('#')[0] == 'newline_prefix']
     ok = False
-    if let:
-        try:
-            nl = local_named(b, 'newline')
-            ml = local_named(b, 'is_ml')
-            ok = all(it.run(let[0]['init'], {nl: x, ml: y}) == (x and y) for x in (False, True) for y in (False, True))
-        except Unanalysable:
-            ok = False
+    try:
+        nl = local_named(b, 'newline')
+        ok = True
+        for x in (False, True):
+            for k, v in vals.items():
+                envx = prefix_env({enc: v, nl: x})
+                if envx.get('newline_prefix') != (x and want['is_ml'][k]):
+                    ok = False
+    except (Unanalysable, KeyError, StopIteration):
+        ok = False
     rep.check(R, 'write_toml_value|newline_prefix', ok, 'newline && is_ml', 'the leading newline is not written exactly for multi-line styles of strings containing a newline', facts.loc(b))
 
 
